@@ -8,11 +8,13 @@
        dissatisfaction entry leaves exactly 0.  raw_pk_h (which only arises from decoding) is not covered: [no_multi].
      * C01_witness_script_accepts: hence a table satisfaction of a B-typed script is accepted
        as a witness-script input: final stack exactly one true element.
-   The link "the implementation's output is a table entry" is established per run (the
-   driver checks membership and, independently, executes every returned witness), and the
-   model of the satisfier (Ms/Sat.v) is compared with the implementation on every run.
+     * C01_model_satisfier_spends: the Gallina model of the library's satisfier (sat_dissat,
+       minimum, minimum_mall, thresh with its stable sort, multi, multi_a, both modes) only
+       outputs table entries, so everything it returns is accepted.
+   The model of the satisfier is compared with the implementation on every run, and
+   independently every witness the implementation returns is executed.
    The script-number facts used (minimal encoding round-trips) are proved in ScriptNumProofs.v. *)
-From Verif Require Import Exec Ser Ast Types TypeCheck SatSpec ExecLemmas TheoremA.
+From Verif Require Import Exec Ser Ast Types TypeCheck SatSpec Sat ExecLemmas TheoremA SatProofs.
 
 Theorem C01_table_sound_partial :
   forall (e : env) (ke : keyenv) (A : assets), assets_ok e ke A -> (forall kbs, e_sigok e kbs [] = false) ->
@@ -27,6 +29,18 @@ Theorem C01_witness_script_accepts_partial :
   forall w, In w (all_sat ke A m) -> accepts e (enc ke m) w = true.
 Proof. exact witness_script_accepts. Qed.
 Print Assumptions C01_witness_script_accepts_partial.
+
+(* The model of the library's satisfier (Ms/Sat.v: both modes, every asset set) only returns
+   table entries, hence: every satisfaction the MODEL returns for a B-typed script is accepted. *)
+Theorem C01_model_satisfier_spends :
+  forall (e : env) (ke : keyenv) (A : assets) (se : senv) (f : fill),
+  linked ke A se f -> (forall ks, length (ksort ke ks) = length ks) ->
+  assets_ok e ke A -> (forall kbs, e_sigok e kbs [] = false) ->
+  forall (mall rhs : bool) (m : ms) (t : ty),
+    type_of m = ROk t -> c_base (t_corr t) = BB -> wf e ke m -> no_multi m ->
+    forall bs, satisfy ke se f mall rhs m = Some bs -> accepts e (enc ke m) (rev bs) = true.
+Proof. exact model_satisfaction_spends. Qed.
+Print Assumptions C01_model_satisfier_spends.
 
 (* non-vacuity: a concrete well-typed script with a non-empty table *)
 Example C01_nonvacuous :
